@@ -60,16 +60,17 @@ def build(cfg, par):
 class Stepper:
     """One public step function per (solver, backend); eager (C01) or jitted (C02)."""
 
-    def __init__(self, mod, jit):
+    def __init__(self, mod, jit, param_state=None):
         self.mod = mod
         self.jit = jit
+        self.param_state = param_state
         self.cache = {}
 
     def get(self, solver, vs):
         key = (solver, vs)
         if key not in self.cache:
             init_fn, step_fn = build_init_and_step_fn(self.mod, voltage_solver=vs, solver=solver)
-            states, params = init_fn([], None, None, 0.025)
+            states, params = init_fn([], None, self.param_state, 0.025)
             n = len(self.mod.nodes)
             all_inds = jnp.arange(n)
 
@@ -217,6 +218,24 @@ def measure_c02(cfg, opts, rng):
                 cond = float(np.linalg.cond(A / np.abs(A).max(axis=1, keepdims=True)))
                 rec["c02"].append({"dt": dt, "vs": vs, "recip": asym / float(np.abs(resp).max()), "cond": cond,
                                    "resp_neg": float(min(resp.min(), 0.0) / np.abs(resp).max()), "pairs": n * (n - 1) // 2})
+    # the same model with its capacitances bound FUNCTIONALLY (tables hold 1.0, the real values come through data_set): the
+    # coupling is pre-divided by the capacitance, so every term has to see the bound value - conservation again, and equality
+    import pickle
+    mod2 = pickle.loads(pickle.dumps(mod))
+    mod2.set("capacitance", 1.0)
+    ps = None
+    for i_ in range(n):                     # one scalar per compartment (data_set takes no arrays)
+        ps = mod2.select(nodes=[i_]).data_set("capacitance", jnp.asarray(float(par["cm"][i_])), ps)
+    S2 = Stepper(mod2, jit=True, param_state=ps)
+    for vs in opts["backends"]:
+        dt = opts["dts"][(cfg["id"] + len(vs)) % len(opts["dts"])]
+        x1, e1 = S.step("bwd_euler", vs, dt, v, par["I"])
+        x2, e2 = S2.step("bwd_euler", vs, dt, v, par["I"])
+        if x1 is None or x2 is None:
+            if (x1 is None) != (x2 is None):
+                rec["c02"].append({"dt": dt, "vs": vs, "bound_cm": 1.0, "bound_cm_err": e1 or e2})
+            continue
+        rec["c02"].append({"dt": dt, "vs": vs, "bound_cm": float(np.max(np.abs(x1 - x2)) / max(np.max(np.abs(x1)), 1.0))})
     # a uniform voltage U with every reversal at U and no stimulus stays uniform
     U = float(rng.uniform(-80, -40))
     par2 = dict(par)
